@@ -23,6 +23,17 @@ class Emission:
         self.args = [a for a in self.fmt[1]] if self.fmt else []
         self.kind = self._classify()
 
+    @classmethod
+    def composed(cls, site, acc, value, pieces, args):
+        """an emission whose template was composed from the line's template and the template of one of its arguments"""
+        e = cls.__new__(cls)
+        e.site, e.acc, e.value = site, acc, value
+        e.fmt = (pieces, args)
+        e.template = fmt.template_s(pieces)
+        e.args = list(args)
+        e.kind = e._classify()
+        return e
+
     def _classify(self):
         v = self.value
         if self.fmt:
@@ -54,7 +65,174 @@ class Emission:
         return "<%s %r @%s>" % (self.kind, self.template if self.template is not None else term_s(self.value)[:40], self.site.loc())
 
 
+def _exclusive(b, defs, use_bb):
+    """the definitions are alternatives with respect to the use: from none of them another one can be reached without
+    passing the use first"""
+    for d in defs:
+        seen = set()
+        for nb in b.succs(d.bb):
+            if nb != use_bb:
+                seen |= b.reach_from(nb, avoid={use_bb})
+        if any(o is not d and o.bb in seen for o in defs):
+            return False
+    return True
+
+
 class Renderer:
+    def _rehome_nested(self, b, accs):
+        """a String that is created empty, only appended to, and appended as a whole to another accumulator exactly once,
+        with nothing else appended to that accumulator in between, is a part of it: its emissions are that accumulator's"""
+        for _ in range(3):
+            moved = False
+            for t in sorted(accs):
+                if t == self.main or t == self.out_param:
+                    continue
+                news = [d for d in b.defs().get(t, []) if d.si is None and cname(d.node) in ("std::string::String::new", "std::string::String::with_capacity")]
+                if len(news) != 1 or len(b.defs().get(t, [])) != 1:
+                    continue
+
+                def is_t(v):
+                    v = strip(v, mir.TRANSPARENT_CALLS)
+                    return v == ("local", t) or (v[0] == "call" and len(v) > 3 and v[3] is not None and v[3].bb == news[0].bb and v[3].si is None)
+                apps = [e for e in self.emissions if e.kind == "append-acc" and e.acc != t and is_t(e.value)]
+                own = [e for e in self.emissions if e.acc == t]
+                if len(apps) != 1 or not own:
+                    continue
+                a = apps[0]
+                # between the creation of t and its append, nothing else is appended to the target
+                span_blocks = b.reach_from(news[0].bb, avoid={a.site.bb}) if hasattr(b, "reach_from") else set()
+                if a.site.bb not in b.reach_from(news[0].bb):
+                    continue
+                clash = [e for e in self.emissions if e.acc == a.acc and e is not a and e.site.bb in span_blocks and e.site.bb != news[0].bb]
+                if clash:
+                    continue
+                # every appended part is followed by the append of the whole: the append depends on nothing the parts do not
+                adeps = b.transitive_control_deps(a.site.bb)
+                if any(not adeps <= b.transitive_control_deps(e.site.bb) for e in own):
+                    continue
+                for e in own:
+                    e.acc = a.acc
+                self.emissions.remove(a)
+                accs.discard(t)
+                moved = True
+            if not moved:
+                break
+
+    def _split_lines(self):
+        """one template holding several lines is the same text as the lines emitted one after the other"""
+        out = []
+        for e in self.emissions:
+            if not e.fmt or e.template is None or e.template.count("\n") < 2 or not e.template.endswith("\n"):
+                out.append(e)
+                continue
+            pieces, args = e.fmt
+            lines, cur = [], []
+            for p in pieces:
+                if isinstance(p, str):
+                    parts = p.split("\n")
+                    for i, part in enumerate(parts):
+                        if i > 0:
+                            cur.append("\n")
+                            lines.append(cur)
+                            cur = []
+                        if part:
+                            cur.append(part)
+                else:
+                    cur.append(p)
+            if cur:
+                lines.append(cur)
+            for ln in lines:
+                used = [q[1] for q in ln if not isinstance(q, str)]
+                remap = {old: new for new, old in enumerate(used)}
+                np_ = []
+                for q in ln:
+                    if isinstance(q, str):
+                        if np_ and isinstance(np_[-1], str):
+                            np_[-1] += q
+                        else:
+                            np_.append(q)
+                    else:
+                        np_.append(("arg", remap[q[1]], q[2] if len(q) > 2 else None))
+                out.append(Emission.composed(e.site, e.acc, e.value, np_, [args[i] for i in used]))
+        self.emissions = out
+
+    def _expand_argument(self, b, e, accs, depth=0):
+        """format!("..{}..", x) where x is a String chosen among several alternatives before the line is emitted
+        (`let ty = match .. { .. => format!("Option<{}>", t), .. => t }`): one emission per alternative with the composed
+        template, located where the alternative is built.  Only when the emission itself depends on nothing the alternative
+        does not depend on (so: alternative built => line emitted with it)."""
+        TR = mir.TRANSPARENT_CALLS + ("std::hint::must_use",)
+        pieces, args = e.fmt
+        for k, (kind, at) in enumerate(args):
+            t = strip(at, TR)
+            if kind != "display" or t[0] != "local" or t[1] in accs:
+                continue
+            lty = b.local_ty(t[1]) or {}
+            if not ((lty.get("adt") == "std::string::String" and not lty.get("refs", 0)) or (lty.get("prim") == "str" and lty.get("refs", 0) == 1)):
+                continue
+            defs = b.defs().get(t[1], [])
+            if len(defs) < 2:
+                continue
+            alts = []
+            for d in defs:
+                if d.si is None:
+                    at2 = strip(("call", mir._norm(d.node["callee"].get("path", "")), [term_of(b, a) for a in d.node["args"]], d), TR)
+                elif d.node["k"] == "assign" and d.node["rv"]["k"] == "use" and not d.node["place"]["p"]:
+                    at2 = strip(term_of(b, d.node["rv"]["op"]), TR)
+                elif d.node["k"] == "assign" and d.node["rv"]["k"] == "ref" and not d.node["rv"].get("mut") and not d.node["place"]["p"]:
+                    at2 = strip(term_of(b, {"copy": d.node["rv"]["place"]}), TR)     # `&*"literal"`
+                else:
+                    return None
+                if at2 == t:
+                    return None
+                alts.append((d, at2))
+            def is_lit(a):
+                return a[0] == "const" and isinstance(a[1], str)
+            # a literal alternative is folded into the template only when every alternative is a literal or a format
+            # (a slot filled by `match .. { Some(name) => name, None => "text" }` stays a slot)
+            fold = all(fmt.format_of(a) is not None or is_lit(a) for _, a in alts)
+            if not any(fmt.format_of(a) is not None or (fold and is_lit(a)) for _, a in alts):
+                continue
+            edeps = b.transitive_control_deps(e.site.bb)
+            if any(not edeps <= b.transitive_control_deps(d.bb) for d, _ in alts):
+                continue
+            if not _exclusive(b, [d for d, _ in alts], e.site.bb):
+                continue            # built up step by step (`ty = format!("Vec<{}>", ty)`): not alternatives
+            out = []
+            for d, a in alts:
+                f = fmt.format_of(a)
+                if f is not None:
+                    sub_p, sub_a = f
+                elif fold and is_lit(a):
+                    sub_p, sub_a = [a[1]], []           # a literal alternative is part of the template
+                else:
+                    sub_p, sub_a = [("arg", 0, None)], [("display", a)]
+                np_, na = [], list(args[:k]) + list(sub_a) + list(args[k + 1:])
+                for p in pieces:
+                    if isinstance(p, str):
+                        np_.append(p)
+                    elif p[1] == k:
+                        if len(p) > 2 and p[2]:
+                            return None         # width/precision applied to the composed text
+                        for q in sub_p:
+                            np_.append(q if isinstance(q, str) else ("arg", k + q[1], q[2] if len(q) > 2 else None))
+                    elif p[1] > k:
+                        np_.append(("arg", p[1] + len(sub_a) - 1, p[2] if len(p) > 2 else None))
+                    else:
+                        np_.append(p)
+                merged = []
+                for q in np_:
+                    if isinstance(q, str) and merged and isinstance(merged[-1], str):
+                        merged[-1] += q
+                    else:
+                        merged.append(q)
+                site = d if d.si is None else mir.Site(b, d.bb, None)
+                ne = Emission.composed(site, e.acc, e.value, merged, na)
+                deeper = self._expand_argument(b, ne, accs, depth + 1) if depth < 2 else None
+                out += deeper if deeper else [ne]
+            return out
+        return None
+
     def __init__(self, lib):
         self.lib = lib
         self.problems = []
@@ -108,8 +286,12 @@ class Renderer:
             # (the options themselves may be among the inputs: fn derive_line(&self: &Options) -> String - the field reads
             # then appear in the renderer's own body, where the use-set rules judge them)
             text_builder = ff.get("output", {}).get("adt") == "std::string::String" and ins and \
-                all(x.get("prim") == "str" or x.get("adt") in ("std::string::String", "options::Options") or x.get("adt") in _self.carriers for x in ins)
-            if not (writes_acc or text_builder):
+                all(x.get("prim") in ("str", "bool") or x.get("adt") in ("std::string::String", "options::Options") or x.get("adt") in _self.carriers for x in ins)
+            # a private function that is handed the options and returns text is a piece of this renderer (an extracted
+            # field rendering): its reads of the options belong to the renderer's use set
+            sees = any(x.get("adt") == "options::Options" or x.get("adt") in _self.carriers for x in ins)
+            piece = sees and ff.get("output", {}).get("adt") == "std::string::String" and not ff.get("output", {}).get("refs", 0) and cb.name != _self.orig_name
+            if not (writes_acc or text_builder or piece):
                 return False
             _self.helpers.add(cb.name)
             return True
@@ -167,15 +349,24 @@ class Renderer:
                         t = None
                     if t is not None and fmt.format_of(t) is not None:
                         alts.append((d, t))
+                    elif t is not None and ((t[0] == "call" and t[1] == "std::string::String::new") or t == ("const", "")):
+                        alts.append((d, None))      # the empty alternative appends nothing
                     else:
                         alts = None
                         break
-                if alts:
+                if alts and any(t is not None for _, t in alts) and _exclusive(b, [d for d, _ in alts], cs.bb):
                     for d, t in alts:
+                        if t is None:
+                            continue
                         site = d if d.si is None else mir.Site(b, d.bb, None)
                         self.emissions.append(Emission(site, acc, t))
                     continue
-            self.emissions.append(Emission(cs, acc, v))
+            e0 = Emission(cs, acc, v)
+            exp = self._expand_argument(b, e0, accs) if e0.fmt else None
+            if exp:
+                self.emissions += exp
+            else:
+                self.emissions.append(e0)
         for cs in b.calls():
             if cname(cs.node) == "std::fmt::Write::write_fmt" and arg_ty(b, cs.node["args"][0]).get("adt") == "std::string::String":
                 p = mir.op_place(cs.node["args"][0])
@@ -183,7 +374,9 @@ class Renderer:
                 if root is None or root["p"]:
                     self.problems.append("write! onto something that is not a local String at %s" % cs.loc())
                     continue
-                self.emissions.append(Emission(cs, root["l"], term_of(b, cs.node["args"][1]), arguments=True))
+                e0 = Emission(cs, root["l"], term_of(b, cs.node["args"][1]), arguments=True)
+                exp = self._expand_argument(b, e0, accs | {root["l"]}) if e0.fmt else None
+                self.emissions += exp if exp else [e0]
                 accs.add(root["l"])
         # out-parameter style: the recursive call appends the child's structs directly to a local accumulator
         if self.out_param is not None:
@@ -197,6 +390,8 @@ class Renderer:
                         self.emissions.append(e)
                         accs.add(root["l"])
         self.emissions.sort(key=lambda e: e.site.bb)
+        self._rehome_nested(b, accs)
+        self._split_lines()
         self.accs = accs
         self.child_acc = None
         others = accs - {self.main}
